@@ -16,6 +16,10 @@
 //                                      default constructor arguments
 //   script                             the real sampler templates with a SCRIPTED generator as `Rand` on lattices of
 //                                      candidates (loop decisions, draws consumed, returned value)
+//   gaussSweep <kmax>                  gaussRand's value on x = +-2^-k m/8, y = +-2^-j n/8 (k, j <= kmax) + candidates next to length2 = 1:
+//                                      bit-equal to the harness's own evaluation, within 2 float ulps of the long-double formula
+//   twoObjects <seed> <rounds>         two live Rand48, two live Rand32, two arrays and the static state, calls interleaved:
+//                                      each call against glibc on a private copy, each object's stream against a lone replay
 //   gaussLattice                       `G kx ky iterations` lines of gaussRand on the lattice (k/8)^2, diffed against the
 //                                      hand model Field.gaussRandLoop evaluated in Lean at Rat
 #include <ImathRandom.h>
@@ -233,6 +237,11 @@ static void runLine (const std::string& line)
 }
 
 // ---------------------------------------------------------------- residue measurements
+template <class T> static bool sameBitsT (T a, T b)
+{
+    if (a != a && b != b) return true;
+    return memcmp (&a, &b, sizeof (T)) == 0;
+}
 template <class T> static T ulpOf (T m)
 {
     m = std::fabs (m);
@@ -312,10 +321,41 @@ template <class V> static bool allFinite (const V& v)
     return true;
 }
 
+// the harness's own evaluation of gaussRand's arithmetic on one candidate, through volatile temporaries (the device of
+// rangeExact): length2 = x*x + y*y in float; accept iff !(length2 >= 1 || length2 == 0);
+// value = float (x * sqrt (-2 * log (double (length2)) / length2)) evaluated in double
+struct GaussRef { bool accept; float L; float value; };
+static GaussRef gaussRef (float x, float y)
+{
+    volatile float xx = x * x;
+    volatile float yy = y * y;
+    volatile float L  = xx + yy;
+    GaussRef       g;
+    g.L      = L;
+    g.accept = !(L >= 1 || L == 0);
+    g.value  = 0;
+    if (g.accept)
+    {
+        volatile double lg  = std::log ((double) L);
+        volatile double num = -2 * lg;
+        volatile double q   = num / (double) L;
+        volatile double sq  = std::sqrt (q);
+        volatile double p   = (double) x * sq;
+        g.value             = (float) p;
+    }
+    return g;
+}
+
 template <class V, class Rand> static void samplerResidue (const char* name, uint64_t seed, int nseeds, int per)
 {
     typedef typename V::BaseType T;
     uint64_t    n = 0, solidNonfinite = 0, solidOutside = 0, hollowNonfinite = 0, hollowOff = 0, gsNonfinite = 0, gNonfinite = 0;
+    // gaussRand on the REAL generator against the harness's re-evaluation from a COPY of the generator, and the hypotheses of
+    // Props/C18.lean gaussRand_bound_rand32 / _rand48 on every accepted candidate
+    uint64_t    gValueMismatch = 0, gStateMismatch = 0, gHypBad = 0, gRetries = 0;
+    const bool  is32   = std::is_same<Rand, IM::Rand32>::value;
+    const float Lmin   = std::ldexp (1.0f, is32 ? -46 : -102);
+    float       gMinL  = 1;
     long double solidMaxL2 = 0, hollowMaxDev = 0, gaussMaxAbs = 0, gsMaxLen = 0;
     const long double eps = std::numeric_limits<T>::epsilon ();
     uint64_t    badSeed = 0;
@@ -332,13 +372,28 @@ template <class V, class Rand> static void samplerResidue (const char* name, uin
             if (!allFinite (s)) { ++solidNonfinite; if (!bad) { bad = 1; badSeed = sd; } }
             long double l2 = ldLength2 (s);
             if (l2 > solidMaxL2) solidMaxL2 = l2;
-            if (s.length2 () > 1 || l2 > 1 + 4 * eps) { ++solidOutside; if (!bad) { bad = 1; badSeed = sd; } }
+            if (l2 > 1 + 4 * eps) { ++solidOutside; if (!bad) { bad = 1; badSeed = sd; } }
             V h = IM::hollowSphereRand<V> (r);
             if (!allFinite (h)) { ++hollowNonfinite; if (!bad) { bad = 1; badSeed = sd; } }
             long double dev = std::fabs (std::sqrt (ldLength2 (h)) - 1) / eps;
             if (dev > hollowMaxDev) hollowMaxDev = dev;
             if (!(dev <= 4)) { ++hollowOff; if (!bad) { bad = 1; badSeed = sd; } }
+            Rand     r2 = r;
+            GaussRef gr;
+            float    gx = 0, gy = 0;
+            for (int it = 0; it < 100000; ++it)
+            {
+                gx = float (r2.nextf (-1, 1));
+                gy = float (r2.nextf (-1, 1));
+                gr = gaussRef (gx, gy);
+                if (gr.accept) break;
+                ++gRetries;
+            }
             float g = IM::gaussRand (r);
+            if (!sameBitsT<float> (g, gr.value)) { ++gValueMismatch; if (!bad) { bad = 1; badSeed = sd; } }
+            if (memcmp ((const void*) &r, (const void*) &r2, sizeof (Rand)) != 0) { ++gStateMismatch; if (!bad) { bad = 1; badSeed = sd; } }
+            if (gr.L < gMinL) gMinL = gr.L;
+            if (!(gr.L >= Lmin) || !((long double) gx * gx <= (1 + ldexpl (1, -22)) * (long double) gr.L)) { ++gHypBad; if (!bad) { bad = 1; badSeed = sd; } }
             if (!std::isfinite (g)) { ++gNonfinite; if (!bad) { bad = 1; badSeed = sd; } }
             if (std::fabs ((long double) g) > gaussMaxAbs) gaussMaxAbs = std::fabs ((long double) g);
             V gs = IM::gaussSphereRand<V> (r);
@@ -348,10 +403,12 @@ template <class V, class Rand> static void samplerResidue (const char* name, uin
         }
     }
     printf ("sampler %s n=%llu solid_nonfinite=%llu solid_outside=%llu solid_max_length2=%.20Lf hollow_nonfinite=%llu hollow_off=%llu "
-            "hollow_max_dev_eps=%.4Lf gauss_nonfinite=%llu gauss_max_abs=%.6Lf gsphere_nonfinite=%llu gsphere_max_len=%.6Lf bad_seed=%llx\n",
+            "hollow_max_dev_eps=%.4Lf gauss_nonfinite=%llu gauss_max_abs=%.6Lf gsphere_nonfinite=%llu gsphere_max_len=%.6Lf bad_seed=%llx "
+            "gauss_value_mismatch=%llu gauss_state_mismatch=%llu gauss_hyp_bad=%llu gauss_retries=%llu gauss_min_length2_log2=%d\n",
             name, (unsigned long long) n, (unsigned long long) solidNonfinite, (unsigned long long) solidOutside, solidMaxL2,
             (unsigned long long) hollowNonfinite, (unsigned long long) hollowOff, hollowMaxDev, (unsigned long long) gNonfinite,
-            gaussMaxAbs, (unsigned long long) gsNonfinite, gsMaxLen, (unsigned long long) badSeed);
+            gaussMaxAbs, (unsigned long long) gsNonfinite, gsMaxLen, (unsigned long long) badSeed, (unsigned long long) gValueMismatch,
+            (unsigned long long) gStateMismatch, (unsigned long long) gHypBad, (unsigned long long) gRetries, std::ilogb (gMinL));
 }
 
 // nextf() itself in [0,1) for many seeds / positions (both classes), directly on the real code
@@ -387,11 +444,6 @@ static void unitResidue (uint64_t seed, int nseeds, int per)
 
 
 // ---------------------------------------------------------------- nextf(a,b) == a*(1-f)+b*f, bit for bit
-template <class T> static bool sameBitsT (T a, T b)
-{
-    if (a != a && b != b) return true;
-    return memcmp (&a, &b, sizeof (T)) == 0;
-}
 template <class T> struct Pair { T a, b; const char* cls; };
 
 template <class T> static std::vector<Pair<T>> endpointPairs ()
@@ -668,7 +720,7 @@ template <class T> struct ScriptGen
 
 struct ScriptStat
 {
-    uint64_t n = 0, bad = 0, accepted = 0, rejected = 0, zeroCand = 0, unitCand = 0;
+    uint64_t n = 0, bad = 0, accepted = 0, rejected = 0, zeroCand = 0, unitCand = 0, threeIter = 0;
     std::string first;
     void fail (const std::string& what) { if (!bad) first = what; ++bad; }
 };
@@ -700,6 +752,10 @@ template <class V> static void scriptSphere (const char* name, int den)
         for (int i = 0; i < N; ++i) cand[i] = T (k[i]) / T (den);
         fb[0] = T (0.5);
         std::vector<T> script;
+        // every 7th lattice point: an extra rejected candidate (2, 0, ..) FIRST, so that a rejected lattice point is the SECOND
+        // rejection in a row (3 iterations on the real template)
+        const int pre = (idx % 7 == 3) ? N : 0;
+        for (int i = 0; i < pre; ++i) script.push_back (i == 0 ? T (2) : T (0));
         for (int i = 0; i < N; ++i) script.push_back (cand[i]);
         for (int i = 0; i < N; ++i) script.push_back (fb[i]);
         const long d2 = (long) den * den;
@@ -714,7 +770,8 @@ template <class V> static void scriptSphere (const char* name, int den)
                 V e = acc ? cand : fb;
                 bool same = true;
                 for (int i = 0; i < N; ++i) same = same && sameBitsT<T> (r[i], e[i]);
-                if (!same || g.k != (size_t) (acc ? N : 2 * N) || g.badRange) so.fail (candStr<V> ("solidSphereRand", k, den) + (acc ? " expected=accept" : " expected=retry") + " draws_consumed=" + std::to_string (g.k) + (g.badRange ? " wrong-range" : ""));
+                if (pre && !acc) ++so.threeIter;
+                if (!same || g.k != (size_t) (pre + (acc ? N : 2 * N)) || g.badRange) so.fail (candStr<V> ("solidSphereRand", k, den) + (acc ? " expected=accept" : " expected=retry") + " draws_consumed=" + std::to_string (g.k) + (g.badRange ? " wrong-range" : ""));
             }
             catch (ScriptExhausted&) { so.fail (candStr<V> ("solidSphereRand", k, den) + " loop did not stop on the fallback candidate"); }
             acc ? ++so.accepted : ++so.rejected;
@@ -733,7 +790,8 @@ template <class V> static void scriptSphere (const char* name, int den)
                 T len = c.length ();
                 bool same = true;
                 for (int i = 0; i < N; ++i) same = same && sameBitsT<T> (r[i], T (c[i] / len));
-                if (!same || g.k != (size_t) (acc ? N : 2 * N) || g.badRange) ho.fail (candStr<V> ("hollowSphereRand", k, den) + (acc ? " expected=accept" : " expected=retry") + " draws_consumed=" + std::to_string (g.k) + (g.badRange ? " wrong-range" : ""));
+                if (pre && !acc) ++ho.threeIter;
+                if (!same || g.k != (size_t) (pre + (acc ? N : 2 * N)) || g.badRange) ho.fail (candStr<V> ("hollowSphereRand", k, den) + (acc ? " expected=accept" : " expected=retry") + " draws_consumed=" + std::to_string (g.k) + (g.badRange ? " wrong-range" : ""));
             }
             catch (ScriptExhausted&) { ho.fail (candStr<V> ("hollowSphereRand", k, den) + " loop did not stop on the fallback candidate"); }
             acc ? ++ho.accepted : ++ho.rejected;
@@ -741,12 +799,12 @@ template <class V> static void scriptSphere (const char* name, int den)
             if (l2num == d2) ++ho.unitCand;
         }
     }
-    printf ("script solidSphereRand %s n=%llu bad=%llu accepted=%llu rejected=%llu zero_candidates=%llu unit_length_candidates=%llu first=[%s]\n", name,
+    printf ("script solidSphereRand %s n=%llu bad=%llu accepted=%llu rejected=%llu zero_candidates=%llu unit_length_candidates=%llu three_iterations=%llu first=[%s]\n", name,
             (unsigned long long) so.n, (unsigned long long) so.bad, (unsigned long long) so.accepted, (unsigned long long) so.rejected,
-            (unsigned long long) so.zeroCand, (unsigned long long) so.unitCand, so.first.c_str ());
-    printf ("script hollowSphereRand %s n=%llu bad=%llu accepted=%llu rejected=%llu zero_candidates=%llu unit_length_candidates=%llu first=[%s]\n", name,
+            (unsigned long long) so.zeroCand, (unsigned long long) so.unitCand, (unsigned long long) so.threeIter, so.first.c_str ());
+    printf ("script hollowSphereRand %s n=%llu bad=%llu accepted=%llu rejected=%llu zero_candidates=%llu unit_length_candidates=%llu three_iterations=%llu first=[%s]\n", name,
             (unsigned long long) ho.n, (unsigned long long) ho.bad, (unsigned long long) ho.accepted, (unsigned long long) ho.rejected,
-            (unsigned long long) ho.zeroCand, (unsigned long long) ho.unitCand, ho.first.c_str ());
+            (unsigned long long) ho.zeroCand, (unsigned long long) ho.unitCand, (unsigned long long) ho.threeIter, ho.first.c_str ());
 }
 
 // gaussRand on the lattice (kx/den, ky/den), fallback (1/2, 1/4): iterations (exact integer spec: accept iff 0 < x^2+y^2 < 1)
@@ -829,6 +887,209 @@ template <class V> static void scriptGaussSphere (const char* name)
         }
     printf ("script gaussSphereRand %s n=%llu bad=%llu hollow_draws_first=%d gauss_draws_first=%d first=[%s]\n", name, (unsigned long long) st.n,
             (unsigned long long) st.bad, hollowFirst, gaussFirst, st.first.c_str ());
+}
+
+// gaussRand's VALUE on a logarithmic family of candidates x = +-2^-k m/8, y = +-2^-j n/8 (scripted generator, float-typed and
+// double-typed draws): loop decision and draws consumed as gaussRef says, value BIT-EQUAL to gaussRef and within 2 float ulps
+// of the long-double formula on the float length2.  Reaches length2 down to the subnormal range (where |value| exceeds 15:
+// Props/C18.lean, example after gaussRand_bound_rand48) and candidates next to length2 = 1.
+template <class T> static void gaussSweep (const char* name, int kmax)
+{
+    uint64_t n = 0, bad = 0, accepted = 0, rejected = 0, subnormalL = 0, smallL = 0, nearOne = 0, valueMismatch = 0, ulpBad = 0, nonfinite = 0, hypBad = 0, hypChecked = 0;
+    long double maxAbs = 0, maxAbsNormal = 0;
+    std::string first, maxCand;
+    auto one = [&] (T x, T y) {
+        ScriptGen<T> g{{x, y, T (0.5), T (0.25)}};
+        float        xf = float (x), yf = float (y);
+        GaussRef     r  = gaussRef (xf, yf), fb = gaussRef (0.5f, 0.25f);
+        ++n;
+        float v = 0;
+        bool  threw = false;
+        try { v = IM::gaussRand (g); } catch (ScriptExhausted&) { threw = true; }
+        float e = r.accept ? r.value : fb.value;
+        bool  ok = !threw && g.k == (size_t) (r.accept ? 2 : 4) && !g.badRange;
+        if (ok && !sameBitsT<float> (v, e)) { ++valueMismatch; ok = false; }
+        if (ok && r.accept)
+        {
+            ++accepted;
+            if (r.L < std::numeric_limits<float>::min ()) ++subnormalL;
+            if (r.L < 1.0f / 64) ++smallL;
+            if (r.L >= 0.5f) ++nearOne;
+            long double L = r.L, ex = (long double) xf * sqrtl (-2 * logl (L) / L);
+            float       ef = (float) ex;
+            long double tol = 2 * (long double) ulpOf<float> (ef == 0 ? std::numeric_limits<float>::min () : ef);
+            if (!std::isfinite (v)) { ++nonfinite; ok = false; }
+            else if (fabsl ((long double) v - ex) > tol) { ++ulpBad; ok = false; }
+            long double av = fabsl ((long double) v);
+            if (av > maxAbs) { maxAbs = av; maxCand = "x=" + bitsOf (xf) + " y=" + bitsOf (yf) + " length2=" + bitsOf (r.L); }
+            if (r.L >= std::numeric_limits<float>::min () && av > maxAbsNormal) maxAbsNormal = av;
+            // the rounding hypothesis of gaussRand_bound_rand32/_rand48 wherever length2 >= 2^-102 (no subnormal product involved)
+            if (r.L >= std::ldexp (1.0f, -102))
+            {
+                ++hypChecked;
+                if (!((long double) xf * xf <= (1 + ldexpl (1, -22)) * L)) { ++hypBad; ok = false; }
+            }
+        }
+        else if (ok) ++rejected;
+        if (!ok)
+        {
+            if (!bad)
+            {
+                char t[300];
+                snprintf (t, sizeof t, "gaussRand x=%08x y=%08x length2=%08x expected=%s draws_consumed=%zu value=%08x harness_formula=%08x%s", f2u (xf), f2u (yf),
+                          f2u (r.L), r.accept ? "accept" : "retry", g.k, f2u (v), f2u (e), threw ? " loop-did-not-stop" : "");
+                first = t;
+            }
+            ++bad;
+        }
+    };
+    const T twk = std::is_same<T, double>::value ? T (1) + T (std::ldexp (1.0, -30)) : T (1); // doubles that are not floats
+    for (int k = 0; k <= kmax; ++k)
+        for (int j = 0; j <= kmax; ++j)
+            for (int m = 1; m <= 8; ++m)
+                for (int q = 1; q <= 8; ++q)
+                    for (int sg = 0; sg < 4; ++sg)
+                    {
+                        T x = T (std::ldexp ((double) m / 8, -k)) * twk, y = T (std::ldexp ((double) q / 8, -j));
+                        one ((sg & 1) ? -x : x, (sg & 2) ? -y : y);
+                    }
+    // next to length2 = 1, and one-sided zero candidates
+    const float below1 = std::nextafter (1.0f, 0.0f);
+    for (int i = 0; i < 6; ++i)
+        for (int j = 8; j <= 16; ++j)
+        {
+            float x = 1.0f - i * (1.0f - below1);
+            one (T (x), T (std::ldexp (1.0, -j))); one (T (std::ldexp (1.0, -j)), T (-x));
+        }
+    one (T (0.6f), T (0.8f)); one (T (0.8f), T (0.6f)); one (T (0.28f), T (0.96f)); one (T (below1), T (0)); one (T (0), T (below1));
+    one (T (0), T (0)); one (T (1), T (0)); one (T (0), T (-1)); one (T (0), T (std::ldexp (1.0, -70))); one (T (std::ldexp (1.0, -74)), T (0));
+    printf ("gaussSweep %s n=%llu bad=%llu accepted=%llu rejected=%llu value_mismatch=%llu beyond_2ulp=%llu nonfinite=%llu length2_below_1_64=%llu "
+            "length2_subnormal=%llu length2_at_least_half=%llu rounding_hyp_checked=%llu rounding_hyp_bad=%llu max_abs=%.6Lf max_abs_normal_length2=%.6Lf max_abs_at=[%s] first=[%s]\n", name,
+            (unsigned long long) n, (unsigned long long) bad, (unsigned long long) accepted, (unsigned long long) rejected, (unsigned long long) valueMismatch,
+            (unsigned long long) ulpBad, (unsigned long long) nonfinite, (unsigned long long) smallL, (unsigned long long) subnormalL, (unsigned long long) nearOne,
+            (unsigned long long) hypChecked, (unsigned long long) hypBad, maxAbs, maxAbsNormal, maxCand.c_str (), first.c_str ());
+}
+
+// granularity of what gaussRand draws from the REAL generators: Rand32::nextf (-1, 1) for ALL 2^23 values of f, Rand48::nextf (-1, 1)
+// at boundary f and random states: the value is exactly 2f - 1 (a multiple of 2^-22 / 2^-51, so 0 or at least that in magnitude)
+static void granularity (uint64_t seed, int n48)
+{
+    uint64_t bad = 0, zeros = 0;
+    int      minLog = 0;
+    for (uint32_t m = 0; m < (1u << 23); ++m)
+    {
+        IM::Rand32 g = rand32Before (m | ((uint32_t) mix (seed, m) << 23));
+        float      x = g.nextf (-1, 1);
+        double     e = 2 * ((double) m / 8388608.0) - 1;
+        if ((double) x != e) ++bad;
+        if (x == 0) ++zeros; else if (std::ilogb (x) < minLog) minLog = std::ilogb (x);
+    }
+    printf ("granularity Rand32 n=%u bad=%llu zeros=%llu min_nonzero_log2=%d\n", 1u << 23, (unsigned long long) bad, (unsigned long long) zeros, minLog);
+    bad = 0; zeros = 0; minLog = 0;
+    static const uint64_t succ[] = {0ull, 1ull, 0xffffffffffffull, 1ull << 47, (1ull << 47) - 1, (1ull << 47) + 1, (1ull << 47) + 16, (1ull << 47) - 16, 1ull << 44,
+                                    (1ull << 46), 3ull << 46, 0x7ffffffffff0ull, 0x800000000010ull};
+    uint64_t n = 0;
+    for (int i = 0; i < n48 + (int) (sizeof succ / sizeof succ[0]); ++i)
+    {
+        uint64_t   x1 = i < (int) (sizeof succ / sizeof succ[0]) ? succ[i] : (mix (seed, 7000000 + i) & 0xffffffffffffull);
+        IM::Rand48 g  = rand48Before (x1);
+        IM::Rand48 h  = g;
+        double     f  = h.nextf ();
+        double     x  = g.nextf (-1, 1);
+        float      xf = float (x);
+        ++n;
+        if (x != 2 * f - 1 || std::ldexp (x, 51) != std::floor (std::ldexp (x, 51))) ++bad;
+        if (xf == 0) { ++zeros; if (x != 0) ++bad; } else if (std::ilogb (xf) < minLog) minLog = std::ilogb (xf);
+    }
+    printf ("granularity Rand48 n=%llu bad=%llu zeros=%llu min_nonzero_log2=%d\n", (unsigned long long) n, (unsigned long long) bad, (unsigned long long) zeros, minLog);
+}
+
+// ---------------------------------------------------------------- several LIVE objects, calls interleaved
+// two Rand48, two Rand32, two caller arrays and the static state; every Rand48 / array / static call is compared with glibc on a
+// private copy AT THE TIME of the call, and every object's stream with the same calls replayed on a lone fresh object afterwards
+static void twoObjects (uint64_t seed, int rounds)
+{
+    uint64_t    calls = 0, glibcBad = 0, loneBad = 0;
+    std::string first;
+    for (int rd = 0; rd < rounds; ++rd)
+    {
+        uint64_t sd[6];
+        for (int i = 0; i < 6; ++i) sd[i] = mix (seed, 5000000 + rd * 8 + i);
+        if (rd == 0) sd[1] = sd[0];                       // two objects with the SAME seed
+        IM::Rand48     o48[2] = {IM::Rand48 ((unsigned long) sd[0]), IM::Rand48 ((unsigned long) sd[1])};
+        IM::Rand32     o32[2] = {IM::Rand32 ((unsigned long) sd[2]), IM::Rand32 ((unsigned long) sd[3])};
+        unsigned short arr[2][3], g48[2][3], garr[2][3];
+        unpack (sd[4] & 0xffffffffffffull, arr[0]); unpack ((sd[4] >> 7) & 0xffffffffffffull, arr[1]);
+        for (int i = 0; i < 2; ++i) { memcpy (g48[i], (const void*) &o48[i], 6); memcpy (garr[i], arr[i], 6); }
+        IM::srand48 ((long) sd[5]); ::srand48 ((long) sd[5]);
+        const int L = 120;
+        std::vector<std::pair<int, int>> ops;
+        std::vector<uint64_t>            outs;
+        auto gl = [&] (uint64_t a, uint64_t b, int obj, int op) {
+            if (a != b)
+            {
+                if (first.empty ()) { char t[200]; snprintf (t, sizeof t, "round=%d object=%d op=%d imath=%llx glibc=%llx (interleaved call disagrees with glibc on a private copy)", rd, obj, op, (unsigned long long) a, (unsigned long long) b); first = t; }
+                ++glibcBad;
+            }
+        };
+        for (int c = 0; c < L; ++c)
+        {
+            uint64_t z = mix (seed ^ 0x77, (uint64_t) rd * 1000 + c);
+            int      obj = (int) (z % 7), op = (int) ((z >> 8) % 4);
+            ops.push_back ({obj, op});
+            uint64_t v = 0;
+            ++calls;
+            if (obj < 2)
+            {
+                IM::Rand48& r = o48[obj];
+                if (op == 0) { v = (uint64_t) r.nexti (); gl (v, (uint64_t) ::nrand48 (g48[obj]), obj, op); }
+                else if (op == 1) { v = r.nextb (); gl (v, (uint64_t) (::nrand48 (g48[obj]) & 1), obj, op); }
+                else if (op == 2) { double d = r.nextf (); v = d2u (d); double e = ::erand48 (g48[obj]); gl ((uint64_t) (std::fabs (d - e) < 3.5527136788005009e-15 && d >= e), 1, obj, op); }
+                else { double d = r.nextf (-3.0, 5.0); v = d2u (d); double e = ::erand48 (g48[obj]); gl ((uint64_t) (std::fabs (d - (-3.0 * (1 - e) + 5.0 * e)) < 1e-13), 1, obj, op); }
+                unsigned short now[3]; memcpy (now, (const void*) &r, 6);
+                gl (pack (now), pack (g48[obj]), obj, 10 + op);
+            }
+            else if (obj < 4)
+            {
+                IM::Rand32& r = o32[obj - 2];
+                v = op == 0 ? (uint64_t) r.nexti () : op == 1 ? (uint64_t) r.nextb () : op == 2 ? (uint64_t) f2u (r.nextf ()) : (uint64_t) f2u (r.nextf (-3.0f, 5.0f));
+            }
+            else if (obj < 6)
+            {
+                int i = obj - 4;
+                if (op < 2) { v = (uint64_t) IM::nrand48 (arr[i]); gl (v, (uint64_t) ::nrand48 (garr[i]), obj, op); }
+                else { double d = IM::erand48 (arr[i]); v = d2u (d); double e = ::erand48 (garr[i]); gl ((uint64_t) (std::fabs (d - e) < 3.5527136788005009e-15 && d >= e), 1, obj, op); }
+                gl (pack (arr[i]), pack (garr[i]), obj, 10 + op);
+            }
+            else
+            {
+                if (op < 2) { v = (uint64_t) IM::lrand48 (); gl (v, (uint64_t) ::lrand48 (), obj, op); }
+                else { double d = IM::drand48 (); v = d2u (d); double e = ::drand48 (); gl ((uint64_t) (std::fabs (d - e) < 3.5527136788005009e-15 && d >= e), 1, obj, op); }
+            }
+            outs.push_back (v);
+        }
+        // lone replay of the four member-object streams
+        for (int obj = 0; obj < 4; ++obj)
+        {
+            IM::Rand48 l48 ((unsigned long) sd[obj < 2 ? obj : 0]);
+            IM::Rand32 l32 ((unsigned long) sd[obj >= 2 ? obj : 2]);
+            for (int c = 0; c < L; ++c)
+            {
+                if (ops[c].first != obj) continue;
+                int      op = ops[c].second;
+                uint64_t v;
+                if (obj < 2) v = op == 0 ? (uint64_t) l48.nexti () : op == 1 ? (uint64_t) l48.nextb () : op == 2 ? d2u (l48.nextf ()) : d2u (l48.nextf (-3.0, 5.0));
+                else v = op == 0 ? (uint64_t) l32.nexti () : op == 1 ? (uint64_t) l32.nextb () : op == 2 ? (uint64_t) f2u (l32.nextf ()) : (uint64_t) f2u (l32.nextf (-3.0f, 5.0f));
+                if (v != outs[c])
+                {
+                    if (first.empty ()) { char t[200]; snprintf (t, sizeof t, "round=%d object=%d call#%d op=%d interleaved=%llx lone-object=%llx", rd, obj, c, op, (unsigned long long) outs[c], (unsigned long long) v); first = t; }
+                    ++loneBad;
+                }
+            }
+        }
+    }
+    printf ("twoObjects rounds=%d calls=%llu glibc_bad=%llu lone_replay_bad=%llu first=[%s]\n", rounds, (unsigned long long) calls, (unsigned long long) glibcBad,
+            (unsigned long long) loneBad, first.c_str ());
 }
 
 int main (int argc, char** argv)
@@ -934,6 +1195,18 @@ int main (int argc, char** argv)
         scriptGauss<float> ("float-draws", 8, false); scriptGauss<double> ("double-draws", 8, false);
         scriptGaussSphere<IM::V2f> ("V2f"); scriptGaussSphere<IM::V3f> ("V3f"); scriptGaussSphere<IM::V4f> ("V4f");
         scriptGaussSphere<IM::V2d> ("V2d"); scriptGaussSphere<IM::V3d> ("V3d"); scriptGaussSphere<IM::V4d> ("V4d");
+        return 0;
+    }
+    if (cmd == "gaussSweep" && argc == 3)
+    {
+        gaussSweep<float> ("float-draws", atoi (argv[2]));
+        gaussSweep<double> ("double-draws", atoi (argv[2]));
+        granularity (1, 200000);
+        return 0;
+    }
+    if (cmd == "twoObjects" && argc == 4)
+    {
+        twoObjects (strtoull (argv[2], 0, 10), atoi (argv[3]));
         return 0;
     }
     if (cmd == "gaussLattice")
